@@ -698,6 +698,10 @@ class BasicLexer(AbstractBasicLexer):
                 t.end_pos = line_ctr.char_pos
                 if t.type in self.callback:
                     t = self.callback[t.type](t)
+                    if isinstance(t, Token):
+                        # A callback may change the token's type (e.g. a keyword matched by a
+                        # regexp terminal). Whether it is ignored depends on its final type.
+                        ignored = t.type in self.ignore_types
                 if not ignored:
                     if not isinstance(t, Token):
                         raise LexError("Callbacks must return a token (returned %r)" % t)
